@@ -32,7 +32,10 @@ def run(c):
               "the cases two thirds of the fetched trees also ship a legacy `.dawnconfig` with other requirements (dawn.toml "
               "counts). Fault injection, every case: the n-th fetch fails once — the resolution must be an error or the "
               "reference answer, and the retries with the same resolver and with a fresh one over the same cache directory "
-              "must give the reference answer."),
+              "must give the reference answer. In a quarter of the universes a project has a near-collision twin — same versions, own "
+              "requirements, a directory that differs only in letter case, by a trailing dot, by %2F for /, or by the Unicode "
+              "normalisation form of one letter; in a third, revisions carry several canonical tags (a second tag of the same "
+              "project, a tag of a sibling project)."),
         judge_note="BuildList map (without the root entry) == reachability/max reference over the intended universe; cmpVersion == "
                    "reference order on canonical versions; list has each path once; "
                    "error iff a reachable requirement cannot be fetched; resolver reuse over several roots; injected fetch failure "
